@@ -57,7 +57,7 @@ def run_rules(F, prop):
     mod = importlib.import_module('props.' + prop)
     anchors.resolve_all(F)
     ctx = engine.Ctx(prop, F, 'scratch')
-    mod.run(ctx)
+    engine.run_module(mod, ctx)
     known = {k['key'] for k in engine.load_known().get('known', []) if k.get('property') == prop}
     return ctx, [f for f in ctx.findings if f.key not in known]
 
